@@ -17,6 +17,15 @@
 (*                         never run, the agent stays "started"            *)
 (*   KeepsActing           threads that already run the agent's trace      *)
 (*                         function keep taking actions after shutdown     *)
+(*   AcceptsDuringDrain    a configuration that arrives from the service    *)
+(*                         while shutdown is under way (the poll timer is   *)
+(*                         stopped late) is still installed: threads that   *)
+(*                         run the agent's trace function act on it later   *)
+(*   RestoreNeedsOwnThread shutdown called from another thread than start   *)
+(*                         restores nothing                                 *)
+(*   ClobbersCallerHook    shutdown called from another thread gives THAT   *)
+(*                         thread the hook the starting thread had before   *)
+(*                         start (pre-fix: sys.settrace is per thread)      *)
 (*   SaveOnce              the hooks found before start are remembered at  *)
 (*                         the FIRST start only: a later start/shutdown    *)
 (*                         cycle puts back hooks the application has since *)
@@ -25,7 +34,8 @@
 EXTENDS Naturals, Sequences, FiniteSets, TLC
 
 CONSTANTS NPlugins, MaxCalls,
-          UnconditionalRestore, AbortOnFailure, KeepsActing, SaveOnce
+          UnconditionalRestore, AbortOnFailure, KeepsActing, SaveOnce, AcceptsDuringDrain, RestoreNeedsOwnThread,
+          ClobbersCallerHook
 
 Hooks == {"None", "Other1", "Other2", "Agent"}
 
@@ -43,10 +53,15 @@ VARIABLES noTrace,    \* NO_TRACE configuration (never changes)
           pluginDown, \* plugins whose shutdown() was called by the last shutdown
           ncalls,
           actedAfter, \* an application thread running the agent's trace function acted after shutdown completed
-          everStarted
+          everStarted,
+          latePoll,   \* the service answered a poll with a NEW configuration while the last shutdown was under way
+          otherHook,  \* the own sys trace function of an application thread that existed before the agent was started
+                      \*   (it got the threading hook of that time) - never the agent's business
+          otherThread \* the last shutdown was called from another thread than the one that started the agent (a
+                      \*   thread can only set its OWN sys trace function: the starting thread's cannot be touched)
 
 vars == <<noTrace, preSys, preThr, appSys, appThr, sysTrace, thrTrace, started, pollAlive, sdpc, failing, sdDone, drained, pluginDown,
-          ncalls, actedAfter, everStarted>>
+          ncalls, actedAfter, everStarted, latePoll, otherThread, otherHook>>
 
 Steps == 1..(3 + NPlugins)     \* 1 RestoreHooks, 2 Flush, 3 StopPoll, 3+i PluginShutdown(i)
 MarkStep == 4 + NPlugins
@@ -58,10 +73,10 @@ Init ==
     /\ appSys = preSys /\ appThr = preThr
     /\ started = FALSE /\ pollAlive = FALSE
     /\ sdpc = 0 /\ failing = {} /\ sdDone = {} /\ drained = FALSE /\ pluginDown = {}
-    /\ ncalls = 0 /\ actedAfter = FALSE /\ everStarted = FALSE
+    /\ ncalls = 0 /\ actedAfter = FALSE /\ everStarted = FALSE /\ latePoll = FALSE /\ otherThread = FALSE /\ otherHook = preThr
 
 Start ==
-    /\ sdpc = 0 /\ ncalls < MaxCalls
+    /\ sdpc = 0 /\ ncalls < MaxCalls /\ ~otherThread
     /\ ncalls' = ncalls + 1
     /\ IF started
          THEN UNCHANGED <<sysTrace, thrTrace, started, pollAlive, everStarted, preSys, preThr>>   \* repeat starts do nothing
@@ -71,22 +86,26 @@ Start ==
                                  /\ IF SaveOnce /\ everStarted
                                       THEN UNCHANGED <<preSys, preThr>>
                                       ELSE preSys' = sysTrace /\ preThr' = thrTrace      \* what is there NOW
-    /\ UNCHANGED <<noTrace, appSys, appThr, sdpc, failing, sdDone, drained, pluginDown, actedAfter>>
+    /\ UNCHANGED <<noTrace, appSys, appThr, sdpc, failing, sdDone, drained, pluginDown, actedAfter, latePoll, otherThread, otherHook>>
 
 (* shutdown() is called; the environment decides which of its steps will fail *)
-ShutdownBegin(f) ==
+ShutdownBegin(f, lp, ot) ==
     /\ sdpc = 0 /\ ncalls < MaxCalls
     /\ ncalls' = ncalls + 1
+    /\ (lp => 2 \in f)          \* (a late answer matters while the drain is waiting for deliveries)
     /\ IF started
          THEN /\ sdpc' = 1 /\ failing' = f /\ sdDone' = {} /\ drained' = FALSE /\ pluginDown' = {}
-         ELSE UNCHANGED <<sdpc, failing, sdDone, drained, pluginDown>>                 \* not started: nothing to do
-    /\ UNCHANGED <<noTrace, preSys, preThr, appSys, appThr, sysTrace, thrTrace, started, pollAlive, actedAfter, everStarted>>
+              /\ latePoll' = lp /\ otherThread' = ot
+         ELSE /\ ~lp /\ ~ot
+              /\ UNCHANGED <<sdpc, failing, sdDone, drained, pluginDown, latePoll, otherThread>>   \* not started: nothing to do
+    /\ UNCHANGED <<noTrace, preSys, preThr, appSys, appThr, sysTrace, thrTrace, started, pollAlive, actedAfter, everStarted, otherHook>>
 
 Effect(step) ==
     CASE step = 1 ->
-           /\ IF noTrace /\ ~UnconditionalRestore
+           /\ IF (noTrace /\ ~UnconditionalRestore) \/ (otherThread /\ RestoreNeedsOwnThread)
                 THEN UNCHANGED <<sysTrace, thrTrace>>
-                ELSE /\ sysTrace' = (IF noTrace THEN "None" ELSE preSys)      \* deviation: the saved (None) values
+                ELSE /\ sysTrace' = (IF otherThread THEN sysTrace                \* not this thread's to set
+                                     ELSE IF noTrace THEN "None" ELSE preSys)   \* deviation: the saved (None) values
                      /\ thrTrace' = (IF noTrace THEN "None" ELSE preThr)
            /\ UNCHANGED <<pollAlive, drained, pluginDown>>
       [] step = 2 -> drained' = TRUE /\ UNCHANGED <<sysTrace, thrTrace, pollAlive, pluginDown>>
@@ -97,32 +116,33 @@ Effect(step) ==
 (* shutdown() raises (3+i). The failure is the environment's; the step's own work is still done.                  *)
 ShutdownStep ==
     /\ sdpc \in Steps
+    /\ otherHook' = IF sdpc = 1 /\ otherThread /\ ClobbersCallerHook /\ ~noTrace THEN preSys ELSE otherHook
     /\ sdDone' = sdDone \cup {sdpc}
     /\ Effect(sdpc)
     /\ IF sdpc \in failing /\ AbortOnFailure
          THEN sdpc' = 0 /\ UNCHANGED started          \* the exception leaves shutdown(): the rest never runs
          ELSE sdpc' = sdpc + 1 /\ UNCHANGED started
-    /\ UNCHANGED <<noTrace, preSys, preThr, appSys, appThr, failing, ncalls, actedAfter, everStarted>>
+    /\ UNCHANGED <<noTrace, preSys, preThr, appSys, appThr, failing, ncalls, actedAfter, everStarted, latePoll, otherThread>>
 
 ShutdownMark ==
     /\ sdpc = MarkStep
     /\ started' = FALSE /\ sdpc' = 0
     /\ UNCHANGED <<noTrace, preSys, preThr, appSys, appThr, sysTrace, thrTrace, pollAlive, failing, sdDone, drained, pluginDown, ncalls,
-                   actedAfter, everStarted>>
+                   actedAfter, everStarted, latePoll, otherThread, otherHook>>
 
 (* a thread that inherited the agent's trace function reaches a tracepoint after shutdown has completed *)
 HostEventAfter ==
     /\ everStarted /\ ~started /\ sdpc = 0 /\ ~noTrace
-    /\ actedAfter' = KeepsActing
+    /\ actedAfter' = (KeepsActing \/ (AcceptsDuringDrain /\ latePoll))
     /\ UNCHANGED <<noTrace, preSys, preThr, appSys, appThr, sysTrace, thrTrace, started, pollAlive, sdpc, failing, sdDone, drained,
-                   pluginDown, ncalls, everStarted>>
+                   pluginDown, ncalls, everStarted, latePoll, otherThread, otherHook>>
 
 (* with tracing disabled the hooks belong to the application: it may install its own while the agent runs *)
 AppSetsHooks ==
     /\ noTrace /\ started /\ sdpc = 0 /\ appSys # "Other2"
     /\ appSys' = "Other2" /\ appThr' = "Other1" /\ sysTrace' = "Other2" /\ thrTrace' = "Other1"
     /\ UNCHANGED <<noTrace, preSys, preThr, started, pollAlive, sdpc, failing, sdDone, drained, pluginDown, ncalls,
-                   actedAfter, everStarted>>
+                   actedAfter, everStarted, latePoll, otherThread, otherHook>>
 
 (* between two lives of the agent the hooks are the application's again: it may replace or remove them *)
 AppChangesHooks(a, b) ==
@@ -130,12 +150,12 @@ AppChangesHooks(a, b) ==
     /\ <<a, b>> # <<appSys, appThr>>
     /\ appSys' = a /\ appThr' = b /\ sysTrace' = a /\ thrTrace' = b
     /\ UNCHANGED <<noTrace, preSys, preThr, started, pollAlive, sdpc, failing, sdDone, drained, pluginDown, ncalls,
-                   actedAfter, everStarted>>
+                   actedAfter, everStarted, latePoll, otherThread, otherHook>>
 
 Next ==
     \/ Start \/ AppSetsHooks
     \/ \E a, b \in {"None", "Other1", "Other2"} : AppChangesHooks(a, b)
-    \/ \E f \in SUBSET (Steps \ {1}) : ShutdownBegin(f)       \* restoring the hooks itself cannot fail
+    \/ \E f \in SUBSET (Steps \ {1}), lp, ot \in BOOLEAN : ShutdownBegin(f, lp, ot)     \* restoring the hooks itself cannot fail
     \/ ShutdownStep \/ ShutdownMark \/ HostEventAfter
 
 Spec == Init /\ [][Next]_vars
@@ -146,7 +166,7 @@ Idle == sdpc = 0
 InstalledWhenStarted == (Idle /\ started /\ ~noTrace) => (sysTrace = "Agent" /\ thrTrace = "Agent")
 NoTraceUntouched == noTrace => (sysTrace = appSys /\ thrTrace = appThr)
 (* shutdown puts back exactly what was there before start *)
-RestoredExactly == (Idle /\ ~started) => (sysTrace = appSys /\ thrTrace = appThr)
+RestoredExactly == (Idle /\ ~started) => (thrTrace = appThr /\ (~otherThread => sysTrace = appSys))
 (* shutdown does all of its work whatever fails *)
 ShutdownCompletes ==
     (Idle /\ ~started /\ everStarted) =>
@@ -155,4 +175,6 @@ ShutdownCompletes ==
         /\ pluginDown = 1..NPlugins
 StoppedAfterShutdown == [][(sdpc # 0 /\ sdpc' = 0) => ~started']_vars
 QuietAfter == ~actedAfter
+(* a thread's own trace function is that thread's: calling shutdown() from it does not replace it *)
+CallerHookUntouched == [][otherHook' = otherHook]_vars
 =============================================================================
